@@ -263,9 +263,6 @@ impl Scope {
         Scope { stack: Vec::new() }
     }
     pub fn lookup(&self, prefix: &str) -> Option<&str> {
-        if prefix == "xml" {
-            return Some(XML_NS);
-        }
         for (p, u) in self.stack.iter().rev() {
             if p == prefix {
                 if u.is_empty() {
@@ -273,6 +270,10 @@ impl Scope {
                 }
                 return Some(u.as_str());
             }
+        }
+        // always bound, unless a declaration on the path (possible through the API) rebinds it
+        if prefix == "xml" {
+            return Some(XML_NS);
         }
         None
     }
